@@ -344,7 +344,8 @@ def _arguments_unchanged(op, args, kwargs):
     try:
         if op['op'] == 'save_signal':
             sig = args[1] if len(args) > 1 else kwargs['signal']
-            return (_same_bits(sig.values, op['values']) and _describe_dt(sig.dt) == (op['dt'], op['dt_type'])
+            now = sig.values if isinstance(sig.values, np.ndarray) else np.asarray(sig.values)   # (a list on old trees)
+            return (_same_bits(now, op['values']) and _describe_dt(sig.dt) == (op['dt'], op['dt_type'])
                     and sig.label == op['label'] and type(sig).__name__ == op['sigtype'])
         ffp, values, dt, label = _save_values_args(args, kwargs)
         if isinstance(values, np.ndarray):
@@ -1402,7 +1403,7 @@ def run_long(eqsig, ctx, tmpd, counter):
 
 
 N_CASES = {'quick': {'oneshot': 5200, 'history': 1800, 'interleaved': 500, 'objhist': 800},
-           'thorough': {'oneshot': 90000, 'history': 32000, 'interleaved': 12000, 'objhist': 12000}}
+           'thorough': {'oneshot': 60000, 'history': 20000, 'interleaved': 6000, 'objhist': 8000}}
 
 
 def run_shard(ctx):
